@@ -1534,6 +1534,56 @@ fn ttl_chain_case(rng: &mut Rng, out: &mut Out, wl: &Arc<WriteLog>, dir: &str, i
     let _ = std::fs::remove_file(&path);
 }
 
+/// the version clock under contention: one key takes explicit timestamps ahead of the wall clock while other
+/// threads make automatic writes to *other* keys of the same clock shard (found through the hook).  An accepted
+/// explicit timestamp must be in the shard clock when the call returns, so the key's next automatic write is never
+/// refused as older - whoever else moved the shard meanwhile.
+fn clockrace_case(rng: &mut Rng, out: &mut Out, idx: u64) {
+    use std::sync::atomic::{AtomicBool, Ordering as O};
+    feoxdb::verif::clock::unpin();
+    let store = match FeoxStore::builder().hash_bits(8).no_memory_limit().build() { Ok(s) => Arc::new(s), Err(_) => return };
+    let subject = format!("clk{}-subject", idx).into_bytes();
+    let shard = store.verif_clock_shard(&subject);
+    let mut mates: Vec<Vec<u8>> = vec![];
+    let mut i = 0u64;
+    while mates.len() < 4 && i < 100_000 {
+        let k = format!("clk{}-m{}", idx, i).into_bytes();
+        if store.verif_clock_shard(&k) == shard { mates.push(k); }
+        i += 1;
+    }
+    if mates.len() < 2 { return; }
+    let stop = Arc::new(AtomicBool::new(false));
+    let mut hs = vec![];
+    for m in mates.iter().cloned() {
+        let (st, stop) = (store.clone(), stop.clone());
+        hs.push(std::thread::spawn(move || { let mut n = 0u64; while !stop.load(O::Relaxed) { let _ = st.insert(&m, &n.to_le_bytes()); n += 1; } }));
+    }
+    let mut bad: Option<String> = None;
+    let rounds = rng.range(2000, 6000);
+    let base = std::time::SystemTime::now().duration_since(std::time::UNIX_EPOCH).unwrap().as_nanos() as u64;
+    for r in 0..rounds {
+        // a future timestamp, further ahead every round
+        let f = base + 3_600_000_000_000 + r * 1_000_000;
+        match store.insert_with_timestamp(&subject, b"explicit", Some(f)) {
+            Ok(_) => {
+                let clock = store.verif_clock_value(shard);
+                if clock < f && bad.is_none() {
+                    bad = Some(format!("round {}: the explicit timestamp {} was accepted for the key, but its clock shard stands at {} when the call has returned", r, f, clock));
+                }
+                if let Err(feoxdb::FeoxError::OlderTimestamp) = store.insert(&subject, b"automatic") {
+                    if bad.is_none() { bad = Some(format!("round {}: after the accepted explicit timestamp {} the key's next automatic write is refused as older (no other writer of this key)", r, f)); }
+                }
+            }
+            Err(_) => {}
+        }
+        if bad.is_some() { break; }
+    }
+    stop.store(true, O::Relaxed);
+    for h in hs { let _ = h.join(); }
+    out.count("clockrace case");
+    if let Some(b) = bad { out.failures.push(format!("C12\tversion clock under contention ({} other keys of the same clock shard written automatically by other threads): {}\t-", mates.len(), b)); }
+}
+
 /// the live io_uring path with a device that rejects writes: the store is opened with the ring enabled (every
 /// other case forces the synchronous path for determinism), then the file-size limit of the process is lowered so
 /// that ring writes past it complete with EFBIG.  flush(), reads and drop must all return; with room again a
@@ -2225,6 +2275,9 @@ fn main() {
     }
     for i in 0..get("races", 0) {
         race_case(&mut rng, &mut out, &ctl, &wl, &args.out, i);
+    }
+    for i in 0..get("clockrace", 0) {
+        clockrace_case(&mut rng, &mut out, i);
     }
     for i in 0..get("ttlchain", 0) {
         ttl_chain_case(&mut rng, &mut out, &wl, &args.out, i);
